@@ -81,7 +81,7 @@ def schema_event(c):
     return p.stdout.strip().splitlines()[-1], raw
 
 SUBSET = {"$schema", "title", "description", "type", "required", "properties", "items", "definitions", "$ref",
-          "allOf", "anyOf", "oneOf", "enum", "format", "minimum", "additionalProperties", "default"}
+          "allOf", "anyOf", "oneOf", "enum", "format", "minimum", "maximum", "additionalProperties", "default"}
 
 def outside_subset(schema):
     """schema keywords the TLA+ semantics (specs/JsonSchema.tla) does not cover, with their JSON paths"""
@@ -149,7 +149,7 @@ def run_c19(tier, replay=None):
         open(tr, "w").write("\n".join(lines) + "\n")
     ok = validate(c, "C19", tr, "docs")
     c.cov["programs"] = 1
-    if tier == "thorough":
+    if True:
         # second opinion: python jsonschema on the same real documents; a disagreement is a tool error, not a verdict
         import sys
         code = "import json,sys,jsonschema\nsys.path.insert(0,%r)\n" % os.path.join(vlib.VERIF, "lib")
@@ -162,7 +162,7 @@ def run_c19(tier, replay=None):
             raise vlib.ToolError("TLA+ schema semantics and python jsonschema disagree (%d rejections vs accepted=%s)" % (pybad, ok))
     c.cov["exhaustive"] = True
     c.cov["rule"] = "the real schemars-generated schema for PortableRegistry (built with feature schema) evaluated by the JsonSchema semantics in TLC on the real serialisation of every registry of the presence lattice and of random registries"
-    c.assumptions += ["draft-07 subset: type, properties, required, additionalProperties:false, items, $ref, allOf/anyOf/oneOf, enum, minimum 0; format treated as annotation; an unknown keyword is a tool error"]
+    c.assumptions += ["draft-07 subset: type, properties, required, additionalProperties:false, items, $ref, allOf/anyOf/oneOf, enum, minimum/maximum with non-negative integer bounds; format treated as annotation; an unknown keyword is a tool error"]
     return c.finish()
 
 def untrusted_leg(c, tier):
